@@ -224,3 +224,12 @@ Proof.
   split; [vm_compute; repeat constructor; simpl; intuition discriminate|].
   split; [vm_compute; reflexivity|]. split; [vm_compute; discriminate|vm_compute; reflexivity].
 Qed.
+
+(** BackpressureLog: in the buffered_unordered(2) history [ops_up] the third item is pulled at
+    a moment when two items were pulled and one was yielded: the hypothesis of
+    C16_pulls_only_below_the_limit is met with a non-trivial prefix *)
+From FB Require Import BackpressureLog.
+Example a_pull_with_a_backlog :
+  let h := hist_of P0 ops_up in
+  h = firstn 9 h ++ EUpPoll (UAItem 3%N) :: skipn 10 h /\ npull (firstn 9 h) = 2 /\ nyield (firstn 9 h) = 1.
+Proof. vm_compute. repeat split; reflexivity. Qed.
